@@ -1,4 +1,4 @@
-(* C17 — proofs about the models of the REPAIRED code (App/Fixed.v): with SetOffset truncating the
+(* C17 — proofs about the models of the code since 09014a8 (App/Fixed.v): with SetOffset truncating the
    file (and multiapp removing the later chunk files) no stale byte ever exists, so the refinement
    of the byte-array specification holds for EVERY operation sequence, reopen and Copy included.
    (For preallocated files the repair changes nothing and the theorems of SingleSim / MultiSim apply.) *)
